@@ -273,6 +273,10 @@ JoinComplete(cfg, obs) ==
   (cfg.kind = "Join" /\ obs.seen["out"] /\ ~obs.cancelled) =>
      /\ AllInClosed(obs) /\ \A i \in 1..NIn(obs) : obs.pend[i] = <<>>
      /\ BagEq(obs.got["out"], Flat(obs.sent))
+\* "merges all inputs": at rest, not cancelled, with the consumer waiting on the output, no sender is left waiting on an input
+\* that is still open - whatever the other inputs do (an element offered on one input does not wait for other inputs to close)
+JoinNoStall(cfg, obs) ==
+  (cfg.kind = "Join" /\ obs.quiet /\ ~obs.cancelled /\ obs.rp["out"] /\ ~obs.seen["out"]) => \A i \in 1..NIn(obs) : obs.pend[i] = <<>>
 
 (* ==================================================================================== C13 Throttling *)
 Bound(cfg) == 2 * cfg.ops + 1 + cfg.cap
@@ -304,7 +308,7 @@ Verdicts(cfg, obs) ==
    PipePrefix |-> PipePrefix(cfg, obs), PipeComplete |-> PipeComplete(cfg, obs), PipeSettle |-> PipeSettle(cfg, obs), PipeGen |-> PipeGen(cfg, obs),
    NeverBlocksSender |-> NeverBlocksSender(cfg, obs), LosslessAfterCancel |-> LosslessAfterCancel(cfg, obs), NewSettle |-> NewSettle(cfg, obs), NewDelivers |-> NewDelivers(cfg, obs),
    GenExact |-> GenExact(cfg, obs), GenStops |-> GenStops(cfg, obs), GenNoEarlyClose |-> GenNoEarlyClose(cfg, obs), EmitPaced |-> EmitPaced(cfg, obs), EmitKeepUp |-> EmitKeepUp(cfg, obs), GenSettle |-> GenSettle(cfg, obs),
-   JoinPerInput |-> JoinPerInput(cfg, obs), JoinNothingInvented |-> JoinNothingInvented(cfg, obs), JoinComplete |-> JoinComplete(cfg, obs),
+   JoinPerInput |-> JoinPerInput(cfg, obs), JoinNothingInvented |-> JoinNothingInvented(cfg, obs), JoinComplete |-> JoinComplete(cfg, obs), JoinNoStall |-> JoinNoStall(cfg, obs),
    ThrottleWindow |-> ThrottleWindow(cfg, obs), ThrottlePaced |-> ThrottlePaced(cfg, obs)]
 Failing(cfg, obs) == LET v == Verdicts(cfg, obs) IN {p \in DOMAIN v : ~v[p]}
 
